@@ -23,11 +23,11 @@ RULE = ('cases: seeded populations of 0-12 agents (after an add/remove history, 
         'query. Non-trivial query: the filter keeps some but not all agents AND involves a tag filter or >=2 types; distinct by '
         '(population signature, query).')
 ASSUMPTIONS = ['"every member is reachable" is checked as: each of the k members is drawn within 60*k draws (a uniform pick misses one with probability < 1e-25)']
-FLOORS = {'quick': {'queries_naming_a_catalogue_component': 952, 'agents_that_gave_a_component_back_before_joining': 757, 'rounds_of_departures_and_arrivals_between_two_queries': 483, 'populations_queried_after_their_model_completed': 85, 'cases_in_mode_debuglog': 84, 'joins_failing_half_way': 88, 'same_question_asked_of_an_unrelated_model_first': 1758, 'queries': 6000, 'tag_zero_queries': 800, 'tag_queries': 3000, 'template_queries': 4000, 'empty_filters': 1500,
+FLOORS = {'quick': {'rounds_whose_first_question_is_a_shuffle': 968, 'rounds_whose_first_question_is_a_random_pick': 984, 'queries_naming_a_catalogue_component': 952, 'agents_that_gave_a_component_back_before_joining': 757, 'rounds_of_departures_and_arrivals_between_two_queries': 483, 'populations_queried_after_their_model_completed': 85, 'cases_in_mode_debuglog': 84, 'joins_failing_half_way': 88, 'same_question_asked_of_an_unrelated_model_first': 1758, 'queries': 6000, 'tag_zero_queries': 800, 'tag_queries': 3000, 'template_queries': 4000, 'empty_filters': 1500,
                     'random_picks': 100000, 'reachability_checks': 700, 'shuffles': 8000, 'shuffles_reordered': 1626, 'size_preserving_swaps': 1500, 'big_populations': 6, 'ids_taken_over_by_new_objects': 100, 'nested_environment_agents': 300, 'removals_after_resident_attach': 60, 'secondary_environment_populations': 100, 'completed_model_populations': 80,
                     'reach:Core.Environment.get_agents': 100000, 'reach:Core.Environment.get_random_agent': 100000,
                     'reach:Core.Environment.shuffle': 8000},
-          'thorough': {'queries': 480000, 'reachability_checks': 66000}}
+          'thorough': {'queries': 480000, 'reachability_checks': 58467}}
 EXHAUSTIVE = {}
 
 _K = None
@@ -217,6 +217,20 @@ def case_population(ctx, case):
                 check(dm.environment.get_agents(*template, **kw) == [] and dm.environment.get_random_agent(*template, **kw) is None
                       and dm.environment.shuffle(*template, **kw) == [], 'the unrelated model found agents matching a filter nobody there matches', query=q)
                 ctx.count('same_question_asked_of_an_unrelated_model_first')
+        first_ = rng.random()
+        if first_ < 0.25:
+            # the random pick is the FIRST thing asked after the changes (nothing has listed the agents since)
+            r_ = env.get_random_agent(*template, **kw)
+            ctx.count('rounds_whose_first_question_is_a_random_pick')
+            if (r_ is None) != (not exp) or (r_ is not None and not any(r_ is a for a in exp)):
+                raise CaseViolation('get_random_agent, asked first after a round of changes, returned an agent outside the filter (or None on a '
+                                    'non-empty filter)', query=q, returned=getattr(r_, 'id', repr(r_)), members=[a.id for a in exp], population=popsig)
+        elif first_ < 0.5:
+            s_ = env.shuffle(*template, **kw)
+            ctx.count('rounds_whose_first_question_is_a_shuffle')
+            if not (isinstance(s_, list) and sorted(map(id, s_)) == sorted(map(id, exp))):
+                raise CaseViolation('shuffle, asked first after a round of changes, is not a permutation of the filter', query=q,
+                                    expected=[a.id for a in exp], observed=[getattr(a, 'id', repr(a)) for a in s_], population=popsig)
         got = env.get_agents(*template, **kw)
         ctx.ev()
         ctx.count('queries')
@@ -284,6 +298,11 @@ def case_population(ctx, case):
         if before != after:
             raise CaseViolation(f'queries changed the environment: {diff(before[0], after[0]) or "membership/order"}', query=q)
         check(same_objects(list(env), order), 'queries changed the iteration order of the environment', query=q)
+        # the last question of the round is, at random, one of the three (with a template of its own) - or none
+        t_last = [rng.choice(K) for _ in range(rng.choice([0, 1, 2]))]
+        rng.choice([lambda: env.get_agents(*t_last), lambda: env.get_random_agent(*t_last), lambda: env.shuffle(*t_last), lambda: len(env), lambda: None])()
+        order_now = list(env)
+        check(same_objects(order_now, order), 'a query changed the iteration order of the environment', query=q)
         if 0 < k < len(order) and (tag is not None or len(set(template)) >= 2):
             ctx.distinct((popsig, tuple(q['template']), tag))
     ctx.state(popsig)
